@@ -28,6 +28,9 @@ func (e OpErr) String() string { return [...]string{"ok", "conflict", "not-found
 // list entry): it merges S into T following the property statement of C03. created tells whether T was
 // just created by the operation (then unset leaves take their schema default, except under Update).
 // T is modified in place; on error T may be partially modified (the statement defines no rollback).
+// ModelPrefill: the target the model stands for creates nodes that hold data already (Store.Prefill)
+var ModelPrefill bool
+
 func Apply(sc *Schema, st Strategy, S, T *DNode, created bool) OpErr {
 	for _, c := range S.schemaKids(sc) {
 		switch c.Kind {
@@ -60,6 +63,11 @@ func Apply(sc *Schema, st Strategy, S, T *DNode, created bool) OpErr {
 			if tk == nil {
 				clearOtherCases(T, c)
 				tk = NewDNode(c)
+				if ModelPrefill {
+					for ln, lv := range PrefillOf(c) {
+						tk.Leaves[ln] = lv.Clone()
+					}
+				}
 				T.Kids[c.Name] = tk
 				isNew = true
 			} else if st == Upsert {
@@ -126,6 +134,11 @@ func ApplyList(sc *Schema, st Strategy, SL, TL *DList) OpErr {
 		}
 		if te == nil {
 			te = NewDNode(TL.S)
+			if ModelPrefill {
+				for ln, lv := range PrefillOf(TL.S) {
+					te.Leaves[ln] = lv.Clone()
+				}
+			}
 			TL.Entries = append(TL.Entries, te)
 			isNew = true
 		}
